@@ -24,6 +24,11 @@ CLAIMS = {
    text="For all payload lengths at once: each of the 32 header bits handed to conn.Write is shown to be the SESSION_MESSAGE type, bit 16 of len(data) in bit 0 of the flags byte and the low 16 length bits big-endian, and the length Receive allocates is shown to be built from exactly the mirror header bits; a dominating guard must refuse payloads whose length does not fit the bits carried; every read is io.ReadFull/ReadAtLeast with its error tested and every success return is dominated by the success of both reads, returning the buffer of exactly the decoded length; header and payload reach the connection in one Write. Behaviour under arbitrary TCP segmentation or a cut connection follows from the trusted io.ReadFull contract and is not explored.",
    note=TRUST + " Additional for C11: io.ReadFull/io.ReadAtLeast contract (all-or-error); net.Conn.Write atomicity for a single call; concurrent Sends are out of scope.",
    design="§4 C11"),
+ "C15": dict(
+   technique="static analysis: E1 linear-fact prover in overflow mode over every 64-bit arithmetic op, narrowing conversion and time.UnixNano/Unix call in the conversion functions, plus typed-AST unit/epoch constant tables and inverse-pair rules",
+   text="Every + - * << on 64-bit integers, every narrowing or sign-changing conversion and every time-API call with a representability precondition inside the 16 conversion functions (and their in-module callees) is an obligation: the exact mathematical result must be entailed to lie in the result type's range from dominating guards alone, with inputs ranging over their full type (so the 'never' sentinels are covered by construction); every scale/epoch constant must be one of the admissible values in the role (multiply/divide/add/subtract) confirmed per function; and in each direction pair the epoch added one way is subtracted the other and the scale multiplied one way is divided the other. Exactness and inverse-ness as arithmetic identities beyond that are not decided.",
+   note=TRUST + " Additional for C15: time.Now() lies in 1970..2262; results of calls outside the module range over their full type; time.Unix(sec, nsec) is total while UnixNano/UnixMicro/UnixMilli need a dominating representability guard; which saturation value is right is a policy choice, not decided.",
+   design="§3 E1 overflow mode, §4 C15"),
  "C17": dict(
    technique="static analysis: lockset / exclusive-lock / lock-pairing / re-entry / guarded-alias-escape / who-may-touch rules on go/ssa with a flow-sensitive lock-state analysis",
    text="The schedule-independent structural part of the property is decided for every interleaving at once: every load or store of the name table and of NameRecord fields reached through it executes with the server's RWMutex held on the same receiver (exclusive for writes), locks are paired on every exit and never re-acquired while held, no return value, channel send or outside store aliases guarded memory (QueryName must return a fresh copy), and nothing outside the server's methods touches the table. An unlocked or under-locked access is a race under some schedule however rarely a test would provoke it. The register/release/refresh conflict matrix, owner de-duplication and expiry semantics are histories of run-time values and are NOT decided by this family.",
